@@ -1,21 +1,29 @@
 #!/bin/bash
-# import_seed3.sh <PROP> <letter> : confirms /tmp/seed3/<PROP>-out in the scratch worktree /tmp/seed3/<PROP>
-# (demo with / without the patch, unedited suite with the patch) and stores it as /verif/seeded/<PROP>-<letter>/
-P=$1; X=$2
-SRC=/tmp/seed3/$P-out; WT=/tmp/seed3/$P
+# import_seed3.sh <PROP> <letter> : confirms /tmp/seed$ROUND/<PROP>-out (ROUND defaults to 3) in the scratch
+# worktree /tmp/seed$ROUND/<PROP> (demo with / without the patch, unedited suite with the patch) and stores it
+# as /verif/seeded/<PROP>-<letter>/ ; DEMO_FLAGS is taken from summary.json's demo_flags when present
+P=$1; X=$2; R=${ROUND:-3}
+SRC=/tmp/seed$R/$P-out; WT=/tmp/seed$R/$P
 [ -f $SRC/patch.diff ] && [ -f $SRC/demo.rs ] || { echo "$P: deliverables missing"; exit 2; }
-LINE=$(bash /verif/tools/confirm_seed.sh $SRC $WT | tail -1)
-echo "$P $LINE"
-python3 - "$P" "$X" "$LINE" <<'PY'
+FLAGS=$(python3 -c "
+import json,re,sys
+try:
+    f=json.load(open('$SRC/summary.json')).get('demo_flags') or ''
+except Exception: f=''
+m=re.search(r'(--no-default-features[^\n\`\"]*?)( --test|\$)', f) or re.search(r'(--features [A-Za-z0-9_,-]+)', f)
+print(m.group(1).strip() if m else '')")
+LINE=$(DEMO_FLAGS="$FLAGS" bash /verif/tools/confirm_seed.sh $SRC $WT | tail -1)
+echo "$P [$FLAGS] $LINE"
+python3 - "$P" "$X" "$LINE" "$R" "$FLAGS" <<'PY'
 import json, os, shutil, sys
-prop, x, confirm = sys.argv[1:4]
-src = f"/tmp/seed3/{prop}-out"; dst = f"/verif/seeded/{prop}-{x}"
+prop, x, confirm, rnd, flags = sys.argv[1:6]
+src = f"/tmp/seed{rnd}/{prop}-out"; dst = f"/verif/seeded/{prop}-{x}"
 os.makedirs(dst, exist_ok=True)
 shutil.copy(f"{src}/patch.diff", f"{dst}/patch.diff"); shutil.copy(f"{src}/demo.rs", f"{dst}/demo.rs")
 try: m = json.load(open(f"{src}/summary.json"))
 except Exception: m = {}
-json.dump({"breaks_property": prop, "summary": m.get("summary"), "needs_to_manifest": m.get("needs_to_manifest"),
-  "origin": "written by an independent sub-agent (third round) that saw only the property text and its own scratch worktree of /repo",
+json.dump({"breaks_property": prop, "summary": m.get("summary"), "needs_to_manifest": m.get("needs_to_manifest"), "demo_flags": flags or None,
+  "origin": f"written by an independent sub-agent (round {rnd}) that saw only the property text and its own scratch worktree of /repo",
   "confirmed_by_me": {"how": "tools/confirm_seed.sh in a scratch worktree: demo test with and without the patch, then the full baseline suite with the patch", "result": confirm},
   "detected_by": None}, open(f"{dst}/meta.json", "w"), indent=1)
 PY
